@@ -107,6 +107,7 @@ func LoadEnv(dir string, extraEnv []string, patterns ...string) (*Prog, error) {
 	if len(p.srcFuncs) == 0 {
 		return nil, fmt.Errorf("load %s: no source functions", dir)
 	}
+	current = p
 	if AnchorsFile != "" {
 		anchors, err := ReadAnchors(AnchorsFile)
 		if err != nil {
@@ -274,13 +275,35 @@ func Closures(fn *ssa.Function) []*ssa.Function {
 	return out
 }
 
-// Root returns the outermost enclosing declared function of fn.
+// Root returns the outermost function that (transitively) creates the literal
+// fn: for source as written its enclosing declared function; after flattening
+// a literal of an inlined helper belongs to the function the helper was
+// inlined into.
 func Root(fn *ssa.Function) *ssa.Function {
-	for fn.Parent() != nil {
-		fn = fn.Parent()
+	for d := 0; fn.Parent() != nil && d < 16; d++ {
+		fn = CreatorOf(fn)
 	}
 	return fn
 }
+
+// CreatorOf returns the function whose code creates the literal fn (its
+// syntactic parent unless fn came with an inlined helper), or nil for a
+// declared function.
+func CreatorOf(fn *ssa.Function) *ssa.Function {
+	if fn.Parent() == nil {
+		return nil
+	}
+	if current != nil {
+		if mc := current.parents[fn]; mc != nil && mc.Parent() != nil {
+			return mc.Parent()
+		}
+	}
+	return fn.Parent()
+}
+
+// current is the program most recently loaded (Root and CreatorOf consult its
+// closure creation sites).
+var current *Prog
 
 // Pos renders a position relative to the module directory.
 func (p *Prog) Pos(pos token.Pos) string {
